@@ -130,11 +130,23 @@ def run_shard(ctx):
     pl = plan(ctx.tier, ctx.seed)
     if ctx.shard == 0:
         api_history(ctx)
+        json_api_forms(ctx)
     for i in range(pl["n"]):
         if not ctx.mine(i):
             continue
         rng = ctx.rng("case", i)
         form = gen.gen_form(rng, sparse_cfg(rng))
+        if i % 12 == 3:
+            # an element whose name (and therefore whose itext id) contains a colon: a namespaced question with guidance but no hint
+            form.settings["namespaces"] = (form.settings.get("namespaces", "") + ' ex="http://example.org/ex"').strip()
+            cells = {"label": "namespaced"}
+            langs = form.meta.get("langs") or []
+            cells["guidance_hint" if not langs or rng.random() < 0.5 else f"guidance_hint::{rng.choice(langs)}"] = "guidance only"
+            if rng.random() < 0.4:
+                cells["constraint"] = ". != ''"
+                cells["constraint_message" if not langs else f"constraint_message::{langs[0]}"] = "cm"
+            holder = rng.choice([form.survey] + [r.children for r, _ in form.walk() if r.is_section()])
+            holder.append(Row("q", "text", f"ex:nsq{i % 7}", cells))
         if i % 16 == 5:
             # osm question with (possibly translated) tags from the osm sheet
             langs = form.meta.get("langs") or []
@@ -184,6 +196,32 @@ def run_shard(ctx):
                 ctx.case(sig=f"fixture|{os.path.basename(path)}")
             for key, what in v:
                 ctx.viol(f"fixture:{key}", f"[{os.path.relpath(path, '/repo')}] {what}", {"fixture": path, "klass": "fixture"})
+
+
+def json_api_forms(ctx):
+    """Surveys built from a JSON dict as an API caller may write it (keys that xls2json always adds may be missing)."""
+    from pyxform.builder import create_survey_element_from_dict
+    for i in range(24):
+        rng = ctx.rng("json-api", i)
+        langs = rng.choice([["en", "fr"], ["x"]])
+        choices = [{"name": f"c{k}", "label": {L: f"C{k} {L}" for L in langs}} for k in range(rng.randint(1, 3))]
+        sel = {"type": rng.choice(["select one", "select all that apply"]), "name": "s1", "label": {L: f"S {L}" for L in langs}, "itemset": "lst", "choices": choices,
+               "control": {"appearance": rng.choice(["search('f')", "minimal search('f')", "minimal"])}}
+        if rng.random() < 0.5:
+            sel["list_name"] = "lst"
+        d = {"type": "survey", "name": "data", "id_string": "j", "title": "j", "default_language": langs[0], "choices": {"lst": choices},
+             "children": [sel, {"type": "text", "name": "t", "label": {L: f"T {L}" for L in langs}}]}
+        try:
+            x = create_survey_element_from_dict(d).to_xml(validate=False)
+        except Exception as e:  # noqa: BLE001
+            ctx.ctr("json_api_rejected")
+            continue
+        v, nrefs, ntr = invariants.c07_itext(xf.Parsed(x), langs[0])
+        ctx.ctr("api_histories")
+        ctx.ctr("itext_refs_checked", nrefs)
+        ctx.case(sig=f"json-api|{sel['type']}|{'list_name' in sel}|{sel['control']['appearance'][:6]}")
+        for key, what in v:
+            ctx.viol(f"json-api:{key}", f"[survey built from a JSON dict, list_name key {'present' if 'list_name' in sel else 'absent'}] {what}", {"klass": "api"})
 
 
 def api_history(ctx):
